@@ -367,6 +367,7 @@ type inliner struct {
 	edits    map[*ast.File][]edit
 	seq      int
 	addImp   map[*ast.File]map[string]string // path -> alias to add
+	addNamedImp map[*ast.File]map[string]string // file -> import name -> path (imports a moved helper's body needs)
 	addAlias map[string]*ast.File             // shadowed type name of this package -> file that gets `type __shN_name = name`
 }
 
@@ -469,6 +470,9 @@ func (in *inliner) run() (int, []string) {
 		if imps := in.addImp[f]; len(imps) > 0 {
 			res = addImports(res, imps)
 		}
+		if named := in.addNamedImp[f]; len(named) > 0 {
+			res = addNamedImports(res, named)
+		}
 		var aliasNames []string
 		for nm, af := range in.addAlias {
 			if af == f {
@@ -503,6 +507,29 @@ func addImports(src []byte, imps map[string]string) []byte {
 	sort.Strings(paths)
 	for _, p := range paths {
 		fmt.Fprintf(&sb, "import %s %q\n", imps[p], p)
+	}
+	return append(append(append([]byte{}, src[:at]...), []byte(sb.String())...), src[at:]...)
+}
+
+// addNamedImports adds `import name "path"` lines (name -> path) after the package clause.
+func addNamedImports(src []byte, named map[string]string) []byte {
+	idx := bytes.Index(src, []byte("\npackage "))
+	if bytes.HasPrefix(src, []byte("package ")) {
+		idx = -1
+	}
+	nl := bytes.IndexByte(src[idx+1:], '\n')
+	if nl < 0 {
+		return src
+	}
+	at := idx + 1 + nl + 1
+	var names []string
+	for n := range named {
+		names = append(names, n)
+	}
+	sort.Strings(names)
+	var sb strings.Builder
+	for _, n := range names {
+		fmt.Fprintf(&sb, "import %s %q\n", n, named[n])
 	}
 	return append(append(append([]byte{}, src[:at]...), []byte(sb.String())...), src[at:]...)
 }
@@ -901,6 +928,7 @@ func (in *inliner) siteOK(encl *ast.FuncDecl, c *ast.CallExpr) bool {
 		return false
 	}
 	ok := true
+	var need [][2]string
 	ast.Inspect(fd.Body, func(n ast.Node) bool {
 		id, isId := n.(*ast.Ident)
 		if !isId || !ok {
@@ -914,6 +942,12 @@ func (in *inliner) siteOK(encl *ast.FuncDecl, c *ast.CallExpr) bool {
 		case *types.PkgName:
 			_, at := scope.LookupParent(id.Name, c.Pos())
 			pn, isPn := at.(*types.PkgName)
+			if at == nil {
+				// the helper lives in a file that imports this package, the call site's file does not (under
+				// this name): the import is added to the call site's file under the helper's name
+				need = append(need, [2]string{id.Name, o.(*types.PkgName).Imported().Path()})
+				return true
+			}
 			if !isPn || pn.Imported() != o.(*types.PkgName).Imported() {
 				ok = false
 			}
@@ -927,6 +961,29 @@ func (in *inliner) siteOK(encl *ast.FuncDecl, c *ast.CallExpr) bool {
 		}
 		return true
 	})
+	if ok && len(need) > 0 {
+		var f *ast.File
+		for _, cand := range in.pkg.Syntax {
+			if cand.Pos() <= c.Pos() && c.Pos() <= cand.End() {
+				f = cand
+			}
+		}
+		if f == nil {
+			return false
+		}
+		if in.addNamedImp == nil {
+			in.addNamedImp = map[*ast.File]map[string]string{}
+		}
+		if in.addNamedImp[f] == nil {
+			in.addNamedImp[f] = map[string]string{}
+		}
+		for _, nd := range need {
+			if prev, has := in.addNamedImp[f][nd[0]]; has && prev != nd[1] {
+				return false
+			}
+			in.addNamedImp[f][nd[0]] = nd[1]
+		}
+	}
 	return ok
 }
 
